@@ -253,6 +253,43 @@ def constant_stream(chk, table, quick):
                               f"{None if got is None else [hex(ord(c)) for c in got] if isinstance(got, str) else got}",
                               template=mk(src), position=name, expected=want, got=got)
     chk.bump("oracle:constants-end-to-end", len(meta))
+    path_constants(chk)
+
+
+def path_constants(chk):
+    """resolved paths and module names as constants (round 10, C12-8): the path written in src — entities decoded, the optional suffix removed ONCE,
+    resolved — is the very string the registered file is looked up by; near-miss registrations (the suffix removed once more, a character dropped)
+    are decoys that render differently"""
+    from . import render, c13
+    import html
+    targets = ["row.wxml", "row.wxml.wxml", "x/c.wxs", "é/中", "r w", "a'b", "q\"x", "a&b", "d.wxml.wxs", "\U0001F600/z", "k.wxmlx", "wxml", ".wxml.wxml"]
+    groups, meta = [], []
+    for t in targets:
+        for sfx_t, sfx_s in ((".wxml", ".wxs"),):
+            decoys = {t[:-len(x)] for x in (".wxml", ".wxs") if t.endswith(x) and len(t) > len(x)} | {t[:-1], t + "x"}
+            decoys.discard(t); decoys.discard(""); decoys.discard("p")
+            files = [["p", '<include src="/%s%s"/><import src="/%s%s"/><template is="t"/><wxs module="m" src="/%s%s"/>{{m.id}}' %
+                      (html.escape(t, quote=True), sfx_t, html.escape(t, quote=True), sfx_t, html.escape(t, quote=True), sfx_s)],
+                     [t, '<template name="t">[hit]</template>(hit)']]
+            files += [[d_, '<template name="t">[miss %d]</template>(miss %d)' % (i, i)] for i, d_ in enumerate(sorted(decoys))]
+            scripts = [[t, "exports.id='S:hit'"]] + [[d_, "exports.id='S:miss%d'" % i] for i, d_ in enumerate(sorted(decoys))]
+            groups.append({"files": files, "scripts": scripts})
+            meta.append(t)
+    res = render.compile_templates(groups)
+    reqs, keep = [], []
+    for t, g in zip(meta, res):
+        if "panic" in g or not isinstance(g.get("gen_groups"), str):
+            chk.violation("input", "compiler failed on a path-constant group", target=t)
+            continue
+        reqs.append({"op": "render", "gen_groups": g["gen_groups"], "path": "p", "steps": [{"create": {}}]})
+        keep.append(t)
+    for t, o in zip(keep, core.run_node(reqs)):
+        got = c13.text_of(o["snapshots"][0]["tree"]) if o.get("snapshots") else "ERROR " + str(o.get("error"))
+        chk.case(("path-const", t), nontrivial=True)
+        if got != "(hit)[hit]S:hit":
+            chk.violation("input", f"path constant {t!r} (written with the optional suffix): include / import / wxs src reach {got!r}, the file and script registered under "
+                          f"exactly that path render '(hit)[hit]S:hit'", target=t, got=got)
+    chk.bump("oracle:path-constants", len(keep))
 
 
 def replay(chk, path):
